@@ -256,6 +256,8 @@ def run_property(mod, tier, seed, only=None):
         % (pid, tier, seed, len(specs), cov["evaluations"], cov["distinct_nontrivial"], states, trans, len(knowns), len(violations), time.time() - t0)
     )
     if errs or flaky:
+        for v in violations[:10]:
+            print("   (unconfirmed) case: %s\n   what: %s" % (v["case_id"], v["what"]))
         for e in errs:
             print("HARNESS ERROR:", e)
         for v, why in flaky:
